@@ -80,4 +80,15 @@ func init() {
 				{src: "now", name: "now", typ: "time.Time"}}}},
 		})
 	})
+	register("CodeArch", func(repo string) (string, error) {
+		return emitCodeArea(repo, "CodeArch", []codeTarget{
+			{dir: "ziputil", name: "inDir"},
+			{dir: "dock", name: "inDir"},
+		})
+	})
+	register("CodeObj", func(repo string) (string, error) {
+		return emitCodeArea(repo, "CodeObj", []codeTarget{
+			{dir: "objects", name: "isValidKey"},
+		})
+	})
 }
